@@ -313,11 +313,19 @@ type Stream struct {
 }
 
 func (s *Stream) Write(p []byte) (int, error) {
+	if len(p) == 0 {
+		return 0, nil // writing nothing is not output
+	}
 	record(s.kind, string(p), int64(len(p)))
+	seamPoint()
 	return len(p), nil
 }
 func (s *Stream) WriteString(p string) (int, error) {
+	if len(p) == 0 {
+		return 0, nil
+	}
 	record(s.kind, p, int64(len(p)))
+	seamPoint()
 	return len(p), nil
 }
 func (s *Stream) Sync() error  { return nil }
@@ -543,6 +551,7 @@ func Now() time.Time {
 	if len(timers) > 0 {
 		fireDue()
 	}
+	seamPoint()
 	return t
 }
 
